@@ -123,7 +123,7 @@ Definition kv_explain (c : scase * list ostep) : option kv_diff + string :=
 Definition kv_chk_ok (c : scase * list ostep) : bool := chk_all_kv c.
 
 (* one checker per property, over the same recorded kv histories *)
-Definition kv_chk_C01 (c : scase * list ostep) : bool := chk_C01_kv c.
+Definition kv_chk_C01 (c : scase * list ostep) : bool := chk_C01_full c.
 Definition kv_chk_C02 (c : scase * list ostep) : bool := chk_C02_kv c.
 Definition kv_chk_C05 (c : scase * list ostep) : bool := chk_C05_full c.
 Definition kv_chk_C06 (c : scase * list ostep) : bool := chk_C06_kv c.
@@ -288,8 +288,8 @@ Definition ttl_chk_ok (t : scase * ttl_run) : bool := chk_ttl t.
 Definition ttl_model (c : scase) := map (fun d => (fst d, r_exp (snd d), is_some (r_value (snd d)))) (s_docs (sfinal_from store0 (sc_steps c))).
 Definition kv_chk_C14 (c : scase * list ostep) : bool := chk_C14_kv c.
 (*                               resp  body  cas   exp   xattr rev   json  del   live  order *)
-Definition mask_C14 := mkMask    true  true  false true  false false false true  true  false.
-Definition kv_corr_C14 := kv_corr_proj mask_C14 rel_all.
+Definition mask_C14 := mkMask    false false false true  false false false true  false false.
+Definition kv_corr_C14 := kv_corr_addr mask_C14 rel_all.
 
 Definition kv_chk_C19 (c : scase * list ostep) : bool := chk_C19_kv c.
 Definition kv_corr_C19 := kv_corr_proj mask_C11 (fun o => match o with SQuery _ _ => true | _ => false end).
